@@ -330,7 +330,9 @@ func c14RealManager(sum *Summary) error {
 	ctx := context.Background()
 	seenIDs := map[uint64]string{}
 	var lastID uint64
-	in := func(step string) map[string]any { return map[string]any{"scenario": "create a,b; fill; delete a; recreate a; slash names", "step": step} }
+	in := func(step string) map[string]any {
+		return map[string]any{"scenario": "create a,b; fill; delete a; recreate a; slash names", "step": step}
+	}
 	noteID := func(step string, id uint64) {
 		if prev, ok := seenIDs[id]; ok {
 			sum.violate(0, "a shard id was assigned to two tables", in(step), fmt.Sprintf("id %d already used by %s", id, prev))
